@@ -1,5 +1,6 @@
 import Orca.Lemmas.SemSim
 import Orca.Lemmas.SemBranch
+import Orca.Lemmas.StackFull
 /-!
 # C17 — function entry/exit probes fire once per call on every normal path
 
@@ -80,3 +81,44 @@ example : view (runFunc [] true 50 (exF 2) exSt) = some ([12], [1001, 5, 1002]) 
 example : noSAL (exF 2).body = true ∧ (runFunc [] true 50 (exF 2) exSt).ok = true := by decide
 
 end Orca.Sem
+
+namespace Orca.Lower
+
+/-- **Function entry / exit code in every plan (flat).** Whatever else is injected into the function — block-level probes, block
+    alternates, semantic-after probes on branches, any number, anywhere —, the encoded body is the one the complete machine `specRunF`
+    computes, in which (`fnPre`) the entry code stands in front of instruction 0 (directly behind that instruction's own `before` code,
+    followed by the opener of the wrapper block when there is exit code), and the exit code stands in front of every instruction that
+    leaves the function (`return`, `return_call*`, `unreachable`, `throw*`) and — behind the `end` that closes the wrapper — in front
+    of the function's final `end`. -/
+theorem c17_function_code_placed_in_every_plan (f : Func) (hsp : f.hasSpecial = true) (hp : ∀ x ∈ f.body, PlainF x) (out : List Tok)
+    (nlf : Nat) (hs : specRunF (f.body.length - 1) (entryToks f) f.exit 0 [{}] none f.nlocals f.body = some (out, nlf)) :
+    lower f = (out, f.added + (nlf - f.nlocals)) :=
+  lower_eq_specF f hsp hp out nlf hs
+
+/-- where exactly: the function-level code in front of instruction `idx` (the definition the theorem above refers to, unfolded) -/
+theorem c17_function_code_positions (last : Nat) (E X : List Tok) (idx : Nat) (i : Instr) :
+    fnPre last E X idx i
+      = (if idx = 0 then E else [])
+        ++ (if X.isEmpty then [] else if i.kind = .exitLike then X else if idx = last then tEnd :: X else []) := rfl
+
+/-- **…and none of it is ever dropped**: every token of the entry code and of the exit code is in the encoded body, for every plan -/
+theorem c17_entry_exit_code_never_lost (f : Func) (hsp : f.hasSpecial = true) (hp : ∀ x ∈ f.body, PlainF x) (out : List Tok)
+    (nlf : Nat) (hne : f.body ≠ [])
+    (hs : specRunF (f.body.length - 1) (entryToks f) f.exit 0 [{}] none f.nlocals f.body = some (out, nlf)) :
+    (∀ t ∈ f.entry, t ∈ (lower f).1) ∧ (∀ t ∈ f.exit, t ∈ (lower f).1) :=
+  lower_keeps_fn f hsp hp out nlf hne hs
+
+/-! non-vacuity (decided): exit code in front of a `return` inside a block and in front of the final `end`; entry code and the wrapper
+    opener in front of instruction 0, behind its own `before` code -/
+private def mkI17 (t : Tok) (k : Kind) : Instr := { tok := t, kind := k }
+set_option maxRecDepth 20000 in
+example :
+    let body : List Instr :=
+      [{ mkI17 "block" .block with before := ["B0"], blockExit := ["X1"] }, mkI17 "return" .exitLike, mkI17 "end" .end_, mkI17 "end" .end_]
+    let f : Func := { body := body, hasSpecial := true, entry := ["EN"], exit := ["EX"] }
+    specRunF 3 (entryToks f) f.exit 0 [{}] none 0 body
+      = some (["B0", "EN", "block:functype", "block", "EX", "return", "X1", "end", "end", "EX", "end"], 0)
+    ∧ (lower f).1 = ["B0", "EN", "block:functype", "block", "EX", "return", "X1", "end", "end", "EX", "end"] := by
+  decide
+
+end Orca.Lower
